@@ -28,8 +28,13 @@ Present(c) == {n \in Names : c.sigs[n].shape # "absent"}
 (* requirement layer *)
 (* authalt: the authorized-key list additionally contains the alternative spelling of key 1 that is used in the      *)
 (* signature map - such a list is not a list of keys (one spelling per key): the call is malformed, never accepted *)
+(* tk: the kind of value given as threshold - a positive integer (c.thr itself) or something that is not one (c.thr + 1/2,     *)
+(* c.thr - 1/2, 0, -c.thr, the decimal string, null): the call is malformed whatever the signatures, never accepted            *)
 ArgFamilies == {"TypeError", "ValueError"}
-Allowed(c) == IF c.authalt THEN ArgFamilies
+ThrKindsAll == {"int", "plus_half", "minus_half", "zero", "neg", "str", "null", "list"}
+ThrKinds == {"int"}          \* overridden (ThrKinds <- ThrKindsAll) by the configuration that enumerates threshold kinds
+BadArgs(c) == c.authalt \/ c.tk # "int"
+Allowed(c) == IF BadArgs(c) THEN ArgFamilies
               ELSE IF Meets(c.sigs, c.auth, c.thr, c.gpg) THEN {"accept"} ELSE {"SignatureError"}
 
 (* implementation layer: the filters of the loop body, in the code's order *)
@@ -51,22 +56,22 @@ CaseJson(c) ==
   [ e    |-> [k \in Key |-> LET v == c.sigs[CanonName(k)] IN <<v.shape, v.by, v.over, v.fr, v.ok>>],
     alt  |-> LET v == c.sigs[AltName] IN <<v.shape, v.by, v.over, v.fr, v.ok>>,
     junk |-> LET v == c.sigs[JunkName] IN <<v.shape, v.by, v.over, v.fr, v.ok>>,
-    auth |-> c.auth, thr |-> c.thr, gpg |-> c.gpg, authalt |-> c.authalt,
+    auth |-> c.auth, thr |-> c.thr, tk |-> c.tk, gpg |-> c.gpg, authalt |-> c.authalt,
     signers |-> Signers(c.sigs, c.auth, c.gpg),
     strip_ok |-> Meets(Strip(c.sigs, c.auth, c.gpg), c.auth, c.thr, c.gpg),
     allowed |-> Allowed(c) ]
 
 (* one initial state per abstract call (written with \E so that TLC enumerates directly) *)
 Init == /\ \E cs \in [Key -> CanonStates], a \in [AltNames -> AltStates], j \in [JunkNames -> JunkStates],
-              au \in SUBSET Key, t \in 1..MaxThr, g \in BOOLEAN, aa \in BOOLEAN :
+              au \in SUBSET Key, t \in 1..MaxThr, g \in BOOLEAN, aa \in BOOLEAN, k \in ThrKinds :
               /\ (aa => a[AltName] # Absent)
               /\ case = [sigs |-> [n \in Names |-> IF IsCanonName(n) THEN cs[KeyOf(n)] ELSE IF n \in AltNames THEN a[n] ELSE j[n]],
-                         auth |-> au, thr |-> t, gpg |-> g, authalt |-> aa]
+                         auth |-> au, thr |-> t, tk |-> k, gpg |-> g, authalt |-> aa]
         /\ pc = "start" /\ todo = {} /\ good = {} /\ outcome = "none"
 
 Start == /\ pc = "start"
          /\ (Emit => PrintT("@@" \o ToJson(CaseJson(case))))
-         /\ IF case.authalt /\ MUTANT # "altauth_ok"
+         /\ IF (case.authalt /\ MUTANT # "altauth_ok") \/ (case.tk # "int" /\ MUTANT # "thr_truncated")
               THEN pc' = "done" /\ outcome' = "TypeError" /\ UNCHANGED <<case, todo, good>>      \* argument validation: not a list of keys
               ELSE pc' = "loop" /\ todo' = Present(case) /\ UNCHANGED <<case, good, outcome>>
 
@@ -97,11 +102,11 @@ TypeOK == /\ pc \in {"start", "loop", "done"} /\ todo \subseteq Names
           /\ outcome \in {"none", "accept", "SignatureError", "TypeError"}
 
 Sound    == (pc = "done" /\ outcome = "accept") => Cardinality(Signers(case.sigs, case.auth, case.gpg)) >= case.thr
-Complete == (pc = "done" /\ ~case.authalt /\ Cardinality(Signers(case.sigs, case.auth, case.gpg)) >= case.thr) => outcome = "accept"
-MalformedNeverAccepted == (pc = "done" /\ case.authalt) => outcome # "accept"
+Complete == (pc = "done" /\ ~BadArgs(case) /\ Cardinality(Signers(case.sigs, case.auth, case.gpg)) >= case.thr) => outcome = "accept"
+MalformedNeverAccepted == (pc = "done" /\ BadArgs(case)) => outcome # "accept"
 Refines  == pc = "done" => outcome \in Allowed(case)
 (* loop invariant: the accumulator never holds anything but genuine signers, and holds all examined ones *)
-GoodExact == (pc \in {"loop", "done"} /\ ~case.authalt) =>
+GoodExact == (pc \in {"loop", "done"} /\ ~BadArgs(case)) =>
                good = {CanonName(k) : k \in {s \in Signers(case.sigs, case.auth, case.gpg) : CanonName(s) \notin todo}}
 (* C06, stripping monotonicity at the design level *)
 StripMonotone == Meets(case.sigs, case.auth, case.thr, case.gpg)
